@@ -97,12 +97,14 @@ func updatePolicyEngineObjectsFromDirPath(pe *eval.PolicyEngine, podNames []type
 	objectsList = parser.FilterObjectsList(objectsList, podNames)
 
 	var err error
+	nsWithManifest := map[string]bool{}
 	for i := range objectsList {
 		obj := objectsList[i]
 		switch obj.Kind {
 		case parser.Pod:
 			err = pe.InsertObject(obj.Pod)
 		case parser.Namespace:
+			nsWithManifest[obj.Namespace.Name] = true
 			err = pe.InsertObject(obj.Namespace)
 			// netpols kinds
 		case parser.NetworkPolicy:
@@ -116,6 +118,16 @@ func updatePolicyEngineObjectsFromDirPath(pe *eval.PolicyEngine, podNames []type
 		}
 		if err != nil {
 			return err
+		}
+	}
+	// a namespace of a queried pod that has no Namespace manifest in the dir gets the default namespace object
+	// (with the kubernetes.io/metadata.name label), as the connectivity analysis of the same dir assumes
+	for i := range podNames {
+		if ns := podNames[i].Namespace; !nsWithManifest[ns] {
+			nsWithManifest[ns] = true
+			if err := pe.InsertObject(&v1.Namespace{ObjectMeta: metav1.ObjectMeta{Name: ns}}); err != nil {
+				return err
+			}
 		}
 	}
 	return nil
